@@ -514,7 +514,7 @@ def module_phase(ctx):
     ctxs["ok4_set"] = set(ctxs.get("ok4", []))
     ctxs["seen4_set"] = ctxs["ok4_set"] | {x for v in ctxs["known4"].values() for x in v}
     bases = list(HAND_BASES)
-    pieces = repo_pieces()
+    pieces = repo_pieces(140 if ctx.quick else 400)
     nhand = len(bases)
     bases += pieces
     basetoks = tokens_of(bases)
@@ -527,12 +527,16 @@ def module_phase(ctx):
         # (b) seed-dependent variants: other texts (one word, multi-byte, longer than the line) and widths
         r = common.Rng(ctx.seed * 1000003 + bi)
         for _ in range(ctx.scale(12, 120)):
-            text = r.weighted([("x", 2), ("é 日本 z", 2), (long_text, 3), ("a  b", 1), ("TODO: fix (this) = that -> x", 2)])
-            yield (r.below(ngaps), r.pick(COMMENT_KINDS), text, r.weighted([(100, 5), (60, 2), (40, 1)]))
+            text = r.weighted([("x", 2), ("é 日本 z", 2), (long_text, 3), ("a  b", 1), ("TODO: fix (this) = that -> x", 2), ("TWO", 3)])
+            kind = r.pick(COMMENT_KINDS)
+            if text == "TWO":   # two adjacent comments in the same gap
+                text = "first\n// second" if kind == "line" else "first */ /* second"
+            yield (r.below(ngaps), kind, text, r.weighted([(100, 5), (60, 2), (40, 1)]))
     cases = judge(make_cases(bases, basetoks, select))
     stats = collections.Counter()
     known_hits = collections.Counter()
     reported = 0
+    seen_fail = set()
     samples = []
     for c in cases:
         f = c["fail"]
@@ -544,7 +548,8 @@ def module_phase(ctx):
         if finding:
             known_hits[fid] += 1
             ctx.known(finding)
-        elif reported < 3:
+        elif reported < 3 and (f, c["ctx4"]) not in seen_fail:
+            seen_fail.add((f, c["ctx4"]))
             reported += 1
             what = {"dropped": "a comment is lost by parse+print", "duplicated": "a comment is duplicated",
                     "reordered": "comments change their relative order", "changed": "comment text changes",
@@ -597,7 +602,7 @@ def regen_contexts():
     """Maintenance (run on the unchanged tree only): enumerate every gap of every base and record the
     token contexts in which the unchanged code fails / passes.  `python3 -m vlib.c09 regen`"""
     common.build_harness(PROP)
-    bases = list(HAND_BASES) + repo_pieces()
+    bases = list(HAND_BASES) + repo_pieces(400)
     basetoks = tokens_of(bases)
     def select(bi, ngaps):
         for g in range(ngaps):
